@@ -368,4 +368,263 @@ theorem rehash_guard_fixed_witness :
       some ("hash", true, 1, 1) := by
   refine ⟨by decide, by decide⟩
 
+/-! ### 2. `find_insert_slot` needs only the structural invariant and an EMPTY bucket
+
+The lemmas of `Hb.Proofs.FindSlot` assume `Inv`; in the middle of `rehash_in_place` the table
+violates `Inv` (pending elements are marked DELETED, also in tables smaller than a group).  The
+proofs only use the clauses below, so they are replayed under `FInv`. -/
+
+structure FInv (cfg : Cfg) (t : Raw) : Prop where
+  struct : StructInv cfg t
+  alloc : t.alloc = true
+  hasEmpty : ∃ i, i < t.buckets ∧ t.ctrlAt i = EMPTY
+
+namespace FInv
+
+theorem allocated (h : FInv cfg t) : t.IsAllocated cfg := h.struct.allocated h.alloc
+
+theorem validAt (h : FInv cfg t) (i : Nat) : ValidCtrl (t.ctrlAt i) := by
+  by_cases hi : i < t.ctrl.size
+  · exact h.struct.valid i hi
+  · have : t.ctrlAt i = 0 := by
+      simp only [Raw.ctrlAt, Array.getD_eq_getD_getElem?]
+      rw [Array.getElem?_eq_none (by omega)]; rfl
+    rw [this]; left; omega
+
+theorem pow (h : FInv cfg t) : ∃ k, t.buckets = 2 ^ k := by
+  obtain ⟨k, _, hk⟩ := h.allocated.2.1; exact ⟨k, hk⟩
+
+theorem and_mask (h : FInv cfg t) (x : Nat) : x &&& t.mask = x % t.buckets := by
+  obtain ⟨k, hk⟩ := h.pow
+  have : t.mask = 2 ^ k - 1 := by simp only [Raw.buckets] at hk; omega
+  rw [this, Nat.and_two_pow_sub_one_eq_mod, hk]
+
+theorem and_mask_lt (h : FInv cfg t) (x : Nat) : x &&& t.mask < t.buckets := by
+  rw [h.and_mask]; exact Nat.mod_lt _ (by simp [Raw.buckets])
+
+theorem size (h : FInv cfg t) : t.ctrl.size = t.buckets + cfg.W := h.allocated.2.2.1
+
+theorem loadGroup (h : FInv cfg t) {pos : Nat} (hp : pos < t.buckets) :
+    ∃ g, loadGroup cfg.W t pos = .ok g ∧ ValidGroup cfg.W g ∧
+      ∀ j, j < cfg.W → g.getD j 0 = t.ctrlAt (pos + j) := by
+  have hsz : pos + cfg.W ≤ t.ctrl.size := by have := h.size; omega
+  refine ⟨(List.range cfg.W).map fun j => t.ctrl.getD (pos + j) 0, ?_, ⟨by simp, ?_⟩, ?_⟩
+  · simp only [Hb.loadGroup, hsz, if_true]
+  · intro b hb
+    simp only [List.mem_map, List.mem_range] at hb
+    obtain ⟨j, _, rfl⟩ := hb
+    exact h.validAt (pos + j)
+  · intro j hj
+    simp [List.getD_eq_getElem?_getD, hj, Raw.ctrlAt]
+
+theorem alloc_geom (hc : CfgOk cfg) (h : FInv cfg t) :
+    (cfg.W = 8 ∨ cfg.W = 16) ∧
+      ((cfg.W ≤ t.buckets ∧ cfg.W ∣ t.buckets) ∨ t.buckets = 4 ∨ (t.buckets = 8 ∧ cfg.W = 16)) := by
+  obtain ⟨_, ⟨k, hk2, hk⟩, hsz, _⟩ := h.allocated
+  refine ⟨hc.W_cases, ?_⟩
+  rw [hk]
+  have hW := hc.W_cases
+  by_cases h4 : 4 ≤ k
+  · left
+    obtain ⟨d, rfl⟩ : ∃ d, k = d + 4 := ⟨k - 4, by omega⟩
+    have : 2 ^ (d + 4) = 16 * 2 ^ d := by rw [Nat.pow_add]; omega
+    rw [this]
+    have := Nat.two_pow_pos d
+    rcases hW with hW | hW <;> rw [hW]
+    · exact ⟨by omega, ⟨2 * 2 ^ d, by omega⟩⟩
+    · exact ⟨by omega, ⟨2 ^ d, by omega⟩⟩
+  · have : k = 2 ∨ k = 3 := by omega
+    rcases this with rfl | rfl
+    · right; left; rfl
+    · rcases hW with hW | hW
+      · left; rw [hW]; exact ⟨by decide, ⟨1, by decide⟩⟩
+      · right; right; exact ⟨rfl, hW⟩
+
+theorem load_view (hc : CfgOk cfg) (h : FInv cfg t) {pos j : Nat} (hp : pos < t.buckets)
+    (hj : j < cfg.W) :
+    (cfg.W ≤ t.buckets → t.ctrlAt (pos + j) = t.ctrlAt ((pos + j) &&& t.mask)) ∧
+    (t.buckets < cfg.W →
+      (pos + j < t.buckets → (pos + j) &&& t.mask = pos + j) ∧
+      (t.buckets ≤ pos + j → pos + j < cfg.W → t.ctrlAt (pos + j) = EMPTY) ∧
+      (cfg.W ≤ pos + j → t.ctrlAt (pos + j) = t.ctrlAt (pos + j - cfg.W) ∧
+        (pos + j) &&& t.mask = pos + j - cfg.W)) := by
+  obtain ⟨hW, hg⟩ := h.alloc_geom hc
+  have hm := h.struct.mirror h.alloc
+  simp only [h.and_mask]
+  refine ⟨fun hle => ?_, fun hlt => ⟨fun h1 => Nat.mod_eq_of_lt h1, fun h1 h2 => (hm.2 hlt).1 _ h1 h2, fun h1 => ?_⟩⟩
+  · by_cases hlt : pos + j < t.buckets
+    · rw [Nat.mod_eq_of_lt hlt]
+    · have e : pos + j = t.buckets + (pos + j - t.buckets) := by omega
+      have hm' : (pos + j) % t.buckets = pos + j - t.buckets := by
+        rw [Nat.mod_eq_sub_mod (by omega), Nat.mod_eq_of_lt (by omega)]
+      rw [hm', e, (hm.1 hle) _ (by omega)]; congr 1; omega
+  · have hsub : pos + j - cfg.W < t.buckets := by omega
+    have e : pos + j = cfg.W + (pos + j - cfg.W) := by omega
+    refine ⟨?_, ?_⟩
+    · conv => lhs; rw [e]
+      exact (hm.2 hlt).2 _ hsub
+    · generalize t.buckets = n at *
+      generalize cfg.W = W at *
+      rcases hg with hg | hg | ⟨hg, hW'⟩
+      · omega
+      · subst hg; rcases hW with hW | hW <;> subst hW <;> omega
+      · subst hg; subst hW'; omega
+
+theorem load_view' (hc : CfgOk cfg) (h : FInv cfg t) {pos j : Nat} (hp : pos < t.buckets)
+    (hj : j < cfg.W) :
+    t.ctrlAt (pos + j) = t.ctrlAt ((pos + j) &&& t.mask) ∨ t.ctrlAt (pos + j) = EMPTY := by
+  have hv := h.load_view hc hp hj
+  by_cases hle : cfg.W ≤ t.buckets
+  · left; exact hv.1 hle
+  · obtain ⟨h1, h2, h3⟩ := hv.2 (by omega)
+    by_cases c1 : pos + j < t.buckets
+    · left; rw [h1 c1]
+    · by_cases c2 : pos + j < cfg.W
+      · right; exact h2 (by omega) c2
+      · left; obtain ⟨e1, e2⟩ := h3 (by omega); rw [e2, e1]
+
+theorem fixInsertSlot_ok (hc : CfgOk cfg) (h : FInv cfg t) {pos j : Nat} (hp : pos < t.buckets)
+    (hj : j < cfg.W) (hs : isSpecial (t.ctrlAt (pos + j)) = true) :
+    ∃ idx, fixInsertSlot cfg t ((pos + j) &&& t.mask) = .ok idx ∧ idx < t.buckets ∧
+      isSpecial (t.ctrlAt idx) = true := by
+  have hlt := h.and_mask_lt (pos + j)
+  have hrd := ctrlRd_ok (t := t) (i := (pos + j) &&& t.mask) (by have := h.size; omega)
+  by_cases hf : isFull (t.ctrlAt ((pos + j) &&& t.mask)) = true
+  · have hsmall : t.buckets < cfg.W := by
+      refine Nat.lt_of_not_le fun hle => ?_
+      have := (h.load_view hc hp hj).1 hle
+      rw [this] at hs; simp [isSpecial, hf] at hs
+    obtain ⟨i0, hi0, he0⟩ := h.hasEmpty
+    obtain ⟨g, hg, hv, hget⟩ := h.loadGroup (pos := 0) (by simp [Raw.buckets])
+    have hhead := matchSpecial_head hc hv
+    cases hfind : (List.range cfg.W).find? fun i => isSpecial (g.getD i 0) with
+    | none =>
+      rw [List.find?_range_eq_none] at hfind
+      have := hfind i0 (by omega)
+      rw [hget i0 (by omega), Nat.zero_add, he0] at this
+      simp [isSpecial_EMPTY] at this
+    | some b =>
+      have hfind' := hfind
+      rw [List.find?_range_eq_some] at hfind
+      obtain ⟨hb, hbW, hmin⟩ := hfind
+      simp only [List.mem_range] at hbW
+      have hbi : b ≤ i0 := by
+        refine Nat.le_of_not_lt fun hlt' => ?_
+        have := hmin i0 hlt'
+        rw [hget i0 (by omega), Nat.zero_add, he0] at this
+        simp [isSpecial_EMPTY] at this
+      rw [hget b hbW, Nat.zero_add] at hb
+      refine ⟨b, ?_, by omega, hb⟩
+      rw [hfind'] at hhead
+      simp only [fixInsertSlot, hrd, hf, if_true, hg, hhead]
+  · refine ⟨(pos + j) &&& t.mask, ?_, hlt, by simp [isSpecial, hf]⟩
+    simp only [fixInsertSlot, hrd, hf]
+    rfl
+
+theorem loop_stop (hc : CfgOk cfg) (h : FInv cfg t) {p : ProbeSeq} {g : List Nat} {b : Nat}
+    (hp : p.pos < t.buckets) (hg : Hb.loadGroup cfg.W t p.pos = .ok g) (hv : ValidGroup cfg.W g)
+    (hget : ∀ j, j < cfg.W → g.getD j 0 = t.ctrlAt (p.pos + j))
+    (hfind : ((List.range cfg.W).find? fun i => isSpecial (g.getD i 0)) = some b) (fuel : Nat) :
+    ∃ idx, findInsertSlotLoop cfg t (fuel + 1) p = .ok idx ∧ idx < t.buckets ∧
+      isSpecial (t.ctrlAt idx) = true := by
+  have hhead := matchSpecial_head hc hv
+  rw [hfind] at hhead
+  rw [List.find?_range_eq_some] at hfind
+  obtain ⟨hb, hbW, _⟩ := hfind
+  simp only [List.mem_range] at hbW
+  rw [hget b hbW] at hb
+  obtain ⟨idx, hfix, hlt, hsp⟩ := h.fixInsertSlot_ok hc hp hbW hb
+  refine ⟨idx, ?_, hlt, hsp⟩
+  simp only [findInsertSlotLoop, hg, findInsertSlotInGroup, hhead, hfix]
+
+theorem loop_first (hc : CfgOk cfg) (h : FInv cfg t) (hash : Nat) :
+    ∀ d s fuel, d < fuel →
+      (∃ j, j < cfg.W ∧
+        isSpecial (t.ctrlAt ((probePos cfg.W cfg.bits t.mask hash (s + d)).pos + j)) = true) →
+      ∃ idx, findInsertSlotLoop cfg t fuel (probePos cfg.W cfg.bits t.mask hash s) = .ok idx ∧
+        idx < t.buckets ∧ isSpecial (t.ctrlAt idx) = true := by
+  intro d
+  induction d with
+  | zero =>
+    intro s fuel hfuel hex
+    obtain ⟨fuel, rfl⟩ : ∃ f, fuel = f + 1 := ⟨fuel - 1, by omega⟩
+    have hp : (probePos cfg.W cfg.bits t.mask hash s).pos < t.buckets := probePos_lt ..
+    obtain ⟨g, hg, hv, hget⟩ := h.loadGroup hp
+    cases hfind : (List.range cfg.W).find? fun i => isSpecial (g.getD i 0) with
+    | none =>
+      exfalso
+      rw [List.find?_range_eq_none] at hfind
+      obtain ⟨j, hj, hsj⟩ := hex
+      have := hfind j hj
+      rw [hget j hj] at this
+      rw [Nat.add_zero] at hsj
+      simp [hsj] at this
+    | some b => exact h.loop_stop hc hp hg hv hget hfind fuel
+  | succ d ih =>
+    intro s fuel hfuel hex
+    obtain ⟨fuel, rfl⟩ : ∃ f, fuel = f + 1 := ⟨fuel - 1, by omega⟩
+    have hp : (probePos cfg.W cfg.bits t.mask hash s).pos < t.buckets := probePos_lt ..
+    obtain ⟨g, hg, hv, hget⟩ := h.loadGroup hp
+    have hhead := matchSpecial_head hc hv
+    cases hfind : (List.range cfg.W).find? fun i => isSpecial (g.getD i 0) with
+    | none =>
+      have hex' : ∃ j, j < cfg.W ∧
+          isSpecial (t.ctrlAt ((probePos cfg.W cfg.bits t.mask hash (s + 1 + d)).pos + j)) = true := by
+        rw [show s + 1 + d = s + (d + 1) by omega]; exact hex
+      obtain ⟨idx, hrun, h5, h6⟩ := ih (s + 1) fuel (by omega) hex'
+      refine ⟨idx, ?_, h5, h6⟩
+      rw [hfind] at hhead
+      simp only [findInsertSlotLoop, hg, findInsertSlotInGroup, hhead]
+      exact hrun
+    | some b => exact h.loop_stop hc hp hg hv hget hfind fuel
+
+theorem exists_special_step (hc : CfgOk cfg) (hpc : ProbeCovers cfg) (h : FInv cfg t) (hash : Nat) :
+    ∃ s, s < t.buckets ∧ ∃ j, j < cfg.W ∧
+      isSpecial (t.ctrlAt ((probePos cfg.W cfg.bits t.mask hash s).pos + j)) = true := by
+  obtain ⟨i0, hi0, he0⟩ := h.hasEmpty
+  obtain ⟨s, hs, hmem⟩ := hpc t hash i0 h.pow hi0
+  rw [mem_window_iff] at hmem
+  obtain ⟨j, hj, hji⟩ := hmem
+  have hn : 0 < t.buckets := by simp [Raw.buckets]
+  have := Nat.div_le_self t.buckets cfg.W
+  refine ⟨s, by omega, j, hj, ?_⟩
+  have hp : (probePos cfg.W cfg.bits t.mask hash s).pos < t.buckets := probePos_lt ..
+  rcases h.load_view' hc hp hj with hv | hv
+  · rw [hv, hji, he0]; exact isSpecial_EMPTY
+  · rw [hv]; exact isSpecial_EMPTY
+
+/-- `find_insert_slot` returns a special real bucket. -/
+theorem findInsertSlot_ok (hc : CfgOk cfg) (hp : ProbeCovers cfg) (h : FInv cfg t) (hash : Nat) :
+    ∃ idx, findInsertSlot cfg t hash = .ok idx ∧ idx < t.buckets ∧
+      isSpecial (t.ctrlAt idx) = true := by
+  obtain ⟨s0, hs0, hex⟩ := h.exists_special_step hc hp hash
+  have hex' : ∃ j, j < cfg.W ∧
+      isSpecial (t.ctrlAt ((probePos cfg.W cfg.bits t.mask hash (0 + s0)).pos + j)) = true := by
+    rw [Nat.zero_add]; exact hex
+  exact h.loop_first hc hash s0 0 (probeFuel t)
+    (by simp only [probeFuel, Raw.buckets] at *; omega) hex'
+
+end FInv
+
+/-! ### `RInv` gives `FInv` -/
+
+theorem countCtrl_live_empty (hv : ∀ i, i < t.buckets → ValidCtrl (t.ctrlAt i)) :
+    t.countCtrl isLive + t.countCtrl (· == EMPTY) = t.buckets := by
+  rw [countCtrl_isLive]
+  have := countP_partition3 (fun i => isFull (t.ctrlAt i)) (fun i => t.ctrlAt i == DELETED)
+    (fun i => t.ctrlAt i == EMPTY) (List.range t.buckets)
+    (fun a ha => validCtrl_tri (hv a (List.mem_range.mp ha)))
+  simpa [Raw.countCtrl] using this
+
+theorem RInv.finv (h : RInv cfg t) : FInv cfg t := by
+  refine ⟨h.struct, h.alloc, ?_⟩
+  have hsz := h.allocated.2.2.1
+  have h2 := countCtrl_live_empty (t := t) (fun i hi => h.struct.valid i (by omega))
+  have h3 := bucketMaskToCapacity_lt_buckets t.mask
+  have h1 := h.cap
+  have : 0 < t.countCtrl (· == EMPTY) := by simp only [Raw.buckets] at h2; omega
+  simp only [Raw.countCtrl, List.countP_pos_iff, List.mem_range] at this
+  obtain ⟨i, hi, he⟩ := this
+  exact ⟨i, hi, by simpa using he⟩
+
 end Hb
